@@ -99,10 +99,16 @@ def run_property(pid: str, tier: str, seed: int, write_lock=False, verbose=False
     solve_wall = discharge(results, budget=budget)
     xc = None
     selftest = None
+    native_xc = None
     if tier == "thorough" and not os.environ.get("VERIF_REPO"):
         from .run import cross_check
         xc = cross_check(results, budget=30)
         selftest = seed_self_test(pid)
+        # CPython cross-check: only contracts whose every obligation was discharged (a refuted or undecided one proves nothing)
+        proved = [r.name for r in results if not r.unsupported and r.obligations and not r.name.startswith("lemma:") and
+                  all(ob.result and ob.result["result"] == "unsat" for ob in r.obligations)]
+        from .crosscheck import cross_check_native
+        native_xc = cross_check_native(proved, P["specs"])
     # ground / structural obligations
     ground = []
     for g in P.get("ground", []):
@@ -338,7 +344,7 @@ def run_property(pid: str, tier: str, seed: int, write_lock=False, verbose=False
             "known_findings_hit": [k["id"] for k in known_hits],
             "known_finding_obligations_excluded_from_counts": known_obls,
             "complete": full,
-            "second_solver": xc, "seed_self_test": selftest,
+            "second_solver": xc, "seed_self_test": selftest, "cpython_cross_check": native_xc,
             "bounded": {"note": "bounded stand-ins, NOT counted in obligations/discharged and not proofs",
                         "cases": len(bounded), "held": len([g for g in bounded if g.ok]),
                         "bound": sorted({g.backend for g in bounded}),
@@ -377,13 +383,26 @@ def run_property(pid: str, tier: str, seed: int, write_lock=False, verbose=False
         if xc["disagreements"]:
             print("checker error: solvers disagree on", xc["disagreements"][:5])
             return 3
+    if native_xc is not None:
+        if native_xc.get("error"):
+            print("checker error: CPython cross-check failed to run:", native_xc["error"])
+            return 3
+        print(f"CPython cross-check: {native_xc['samples_run']} random samples inside the preconditions of "
+              f"{native_xc['contracts_exercised']}/{native_xc['contracts_offered']} proved contracts run on the real functions, "
+              f"{len(native_xc['disagreements'])} disagreements")
+        if native_xc["disagreements"]:
+            print("checker error: a PROVED contract is false on the real code for a concrete input (unsound model or "
+                  "evaluator):", json.dumps(native_xc["disagreements"][:3], default=str)[:1500])
+            return 3
     if selftest is not None:
         ok = [t for t in selftest if t.get("as_expected")]
         print(f"seed self-test: {len(ok)}/{len(selftest)} stored changes reported as expected")
         for t in selftest:
-            if t.get("exit") == 0:
+            if t.get("exit") == 0 and t.get("expected_exit") != 0:
                 print(f"checker error: the check reports that {pid} HOLDS on the seeded change {t['seed']}")
                 return 3
+            if t.get("exit") == 0:
+                print(f"  note: seed {t['seed']} is not detected (a clause this check states it does not decide)")
             if not t.get("as_expected"):
                 print(f"  note: seed {t['seed']}: {t}")
     for cid, path, suffix in violations:
@@ -424,7 +443,9 @@ def seed_self_test(pid: str):
             meta = json.load(open(os.path.join(d, "meta.json")))
         except Exception:
             meta = {}
-        expected = {"violation": 1, "undecided": 2}.get(meta.get("expected", "violation"), 1)
+        # "missed": a stored change in a clause the check states it does NOT decide (listed under the property's
+        # assumptions as NOT DECIDED); it is run and reported, and is not a soundness alarm
+        expected = {"violation": 1, "undecided": 2, "missed": 0}.get(meta.get("expected", "violation"), 1)
         w = tempfile.mkdtemp(prefix="verif_seedcopy_")
         o = tempfile.mkdtemp(prefix="verif_seedout_")
         try:
